@@ -440,8 +440,8 @@ def int_key(e, env=None):
         return "size(%s)" % path_str(sp)
     p = path(e)
     if p is not None:
-        if len(p) == 1 and p[0].startswith("l:"):
-            # a constexpr / const local with a constant initialiser is that constant
+        if len(p) == 1 and (p[0].startswith("l:") or (e.get("k") == "Ref" and e.get("d") == "global" and e.get("const"))):
+            # a constexpr / const local or namespace/class-scope constant with a constant initialiser is that constant
             cv = const_value(e)
             if cv is not None and not isinstance(cv, str):
                 return str(int(cv))
